@@ -77,11 +77,12 @@ pub fn set_table(tb: &[OpSpec]) -> &'static [OpSpec] {
 pub fn table() -> &'static [OpSpec] { TABLE.with(|t| *t.borrow()) }
 
 macro_rules! mk { ($($k:literal),*) => {
-    const BINS: [fn(Term,Term)->Term; 32] = [$(|a,b| Term::Bin($k, Box::new(a), Box::new(b))),*];
-    const UNS: [fn(Term)->Term; 32] = [$(|a| Term::Un($k, Box::new(a))),*];
+    const BINS: [fn(Term,Term)->Term; 72] = [$(|a,b| Term::Bin($k, Box::new(a), Box::new(b))),*];
+    const UNS: [fn(Term)->Term; 72] = [$(|a| Term::Un($k, Box::new(a))),*];
 }}
-mk!(0,1,2,3,4,5,6,7,8,9,10,11,12,13,14,15,16,17,18,19,20,21,22,23,24,25,26,27,28,29,30,31);
+mk!(0,1,2,3,4,5,6,7,8,9,10,11,12,13,14,15,16,17,18,19,20,21,22,23,24,25,26,27,28,29,30,31,32,33,34,35,36,37,38,39,40,41,42,43,44,45,46,47,48,49,50,51,52,53,54,55,56,57,58,59,60,61,62,63,64,65,66,67,68,69,70,71);
 pub const MAX_OPS: usize = 32;
+pub const MAX_TABLE: usize = 72;
 
 #[derive(Clone, Debug)]
 pub struct TF;
@@ -143,4 +144,43 @@ pub fn g_table(tb: &[OpSpec]) -> String {
         match o.bin { Some((p, c)) => format!("Some {{| prio := ({p})%Z; comm := {c} |}}"), None => "None".into() },
         o.unary, o.constant)).collect();
     format!("[{}]", specs.join(";\n  "))
+}
+
+// ---- what DiffDataType needs: neutral elements and the constants of the derivative rules, as literals
+impl From<u8> for Term { fn from(v: u8) -> Self { Term::Lit(format!("{v}")) } }
+impl From<f32> for Term { fn from(v: f32) -> Self { Term::Lit(format!("{v}")) } }
+
+/// the operator table of FloatOpsFactory::<f64> (names, priorities, flags, roles) as a term table:
+/// regenerated from the implementation on every run
+pub fn float_table() -> Vec<OpSpec> {
+    use exmex::{FloatOpsFactory, MakeOperators};
+    FloatOpsFactory::<f64>::make().iter().map(|o| OpSpec {
+        repr: o.repr().to_string(), bin: o.bin().ok().map(|b| (b.prio, b.is_commutative)), unary: o.has_unary(), constant: o.constant().is_some() }).collect()
+}
+/// the operator table of ValOpsFactory::<i32, f64> as a term table
+pub fn val_table() -> Vec<OpSpec> {
+    use exmex::{ValOpsFactory, MakeOperators};
+    ValOpsFactory::<i32, f64>::make().iter().map(|o| OpSpec {
+        repr: o.repr().to_string(), bin: o.bin().ok().map(|b| (b.prio, b.is_commutative)), unary: o.has_unary(), constant: o.constant().is_some() }).collect()
+}
+/// `Val::None` in the numeric reading: a NaN with a payload no arithmetic produces
+pub const NONE_BITS: u64 = 0x7ff8_dead_beef_0001;
+/// numeric reading of a term over a table with the float operator names (oracle only)
+pub fn interp(t: &Term, tb: &[OpSpec], vars: &[f64]) -> f64 {
+    match t {
+        Term::Lit(s) => s.parse::<f64>().unwrap_or(f64::NAN),
+        Term::Cst(k) => match tb[*k].repr.as_str() { "PI" | "π" => std::f64::consts::PI, "E" | "e" => std::f64::consts::E, "TAU" | "τ" => std::f64::consts::TAU, _ => f64::NAN },
+        Term::Var(i) => vars.get(*i).copied().unwrap_or(f64::NAN),
+        Term::Dflt => f64::NAN,
+        Term::Un(k, a) => { let x = interp(a, tb, vars); match tb[*k].repr.as_str() {
+            "+" => x, "-" => -x, "abs" => x.abs(), "signum" => x.signum(), "sin" => x.sin(), "cos" => x.cos(), "tan" => x.tan(), "asin" => x.asin(), "acos" => x.acos(), "atan" => x.atan(),
+            "sinh" => x.sinh(), "cosh" => x.cosh(), "tanh" => x.tanh(), "asinh" => x.asinh(), "acosh" => x.acosh(), "atanh" => x.atanh(), "floor" => x.floor(), "round" => x.round(), "ceil" => x.ceil(),
+            "trunc" => x.trunc(), "fract" => x.fract(), "exp" => x.exp(), "sqrt" => x.sqrt(), "cbrt" => x.cbrt(), "ln" | "log" => x.ln(), "log2" => x.log2(), "log10" => x.log10(), _ => f64::NAN } }
+        Term::Bin(k, a, b) => { let (x, y) = (interp(a, tb, vars), interp(b, tb, vars)); match tb[*k].repr.as_str() {
+            "+" => x + y, "-" => x - y, "*" => x * y, "/" => x / y, "^" => x.powf(y), "atan2" => x.atan2(y), "min" => x.min(y), "max" => x.max(y),
+            ">" => (x > y) as i32 as f64, "<" => (x < y) as i32 as f64, ">=" => (x >= y) as i32 as f64, "<=" => (x <= y) as i32 as f64, "==" => (x == y) as i32 as f64, "!=" => (x != y) as i32 as f64,
+            // `a if c` yields a when c is true and "none" (NaN here) otherwise; `n else b` yields b when n is none
+            "if" => if y != 0.0 { x } else { f64::from_bits(NONE_BITS) }, "else" => if x.to_bits() == NONE_BITS { y } else { x },
+            _ => f64::NAN } }
+    }
 }
